@@ -120,6 +120,7 @@ class Machine:
         self.models = [(re.compile(p), m) for p, m in models]
         self.subst = [(re.compile(p), r) for p, r in subst]
         self.solver = z3.Solver()
+        self.solver.set('timeout', int(os.environ.get('VERIF_Z3_TIMEOUT_MS', '120000')))
         self.stats = collections.Counter()
         self.callees_model, self.callees_mir = set(), set()
         self.jobs = jobs
